@@ -570,3 +570,59 @@ func (s *Solver) restart() {
 	s.sb.Reset()
 	s.extraOpen, s.needRestart, s.dead = false, false, false
 }
+
+// portfolio runs cvc5 (integer encoding) and z3 (from scratch) on the same standalone script and
+// returns the first definite verdict.
+func portfolio(script string, timeout time.Duration) (Result, string) {
+	f, err := os.CreateTemp("", "vq-*.smt2")
+	if err != nil {
+		return Unknown, ""
+	}
+	defer os.Remove(f.Name())
+	f.WriteString(script)
+	f.Close()
+	type ans struct {
+		r   Result
+		who string
+	}
+	ch := make(chan ans, 2)
+	run := func(who string, name string, args ...string) *exec.Cmd {
+		cmd := exec.Command(name, append(args, f.Name())...)
+		go func() {
+			out, _ := cmd.Output()
+			txt := strings.TrimSpace(string(out))
+			r := Unknown
+			if !strings.Contains(txt, "(error") {
+				if strings.HasPrefix(txt, "unsat") {
+					r = Unsat
+				} else if strings.HasPrefix(txt, "sat") {
+					r = Sat
+				}
+			}
+			ch <- ans{r, who}
+		}()
+		return cmd
+	}
+	c1 := run("cvc5", "cvc5", "--solve-bv-as-int=sum")
+	c2 := run("z3", "z3", "-smt2", fmt.Sprintf("-T:%d", int(timeout.Seconds())+1))
+	kill := func() {
+		for _, c := range []*exec.Cmd{c1, c2} {
+			if c.Process != nil {
+				c.Process.Kill()
+			}
+		}
+	}
+	defer kill()
+	deadline := time.After(timeout)
+	for got := 0; got < 2; got++ {
+		select {
+		case a := <-ch:
+			if a.r != Unknown {
+				return a.r, a.who
+			}
+		case <-deadline:
+			return Unknown, ""
+		}
+	}
+	return Unknown, ""
+}
